@@ -22,6 +22,9 @@
 #       -> events of start() [worker runs len(DURS) ticks] followed by `T<0|1> C<clck_src|->`
 #   clck.hist T0 START PERIOD HANDLER LINKS OP;OP;...
 #       OP = start:DURS | stop | idle:NS | setstart:FN ; answer = per-op result joined by " | "
+#   clck.links T0 START PERIOD HANDLER LINKS DURS CHANGES
+#       like clck.run, with clck_links modified in place while the worker sleeps: CHANGES = `-` or k+ID,k-ID,...
+#       = append / remove (if attached) link ID during the wait that precedes tick k (0-based)
 #   LINKS, DURS = comma separated naturals or `-` for none; HANDLER = 0|1
 #   --dump : JSON with the constants gen/clck.py writes to Gen/Clck.lean
 import json
@@ -46,6 +49,9 @@ class World:
         self.hcalls = 0       # handler calls in the current session
         self.nticks = 0       # waits that return False in the current session
         self.waits = 0
+        self.changes = {}     # tick index -> [(+1 | -1, link id)]: applied to gen.clck_links IN PLACE during the wait before that tick
+        self.gen = None
+        self.links = {}
 
 
 class VClock:
@@ -72,6 +78,16 @@ class Breaker:
         dt = round(timeout / NS)
         if dt > 0:
             w.now += dt          # a negative timeout returns immediately, like Event.wait
+        # what the socket thread does while the worker sleeps (Transceiver.power_event_handler):
+        # clck_links.append(link) / clck_links.remove(link) on the list object of the generator
+        for sign, ident in w.changes.get(w.waits, ()):
+            ll = w.gen.clck_links
+            if ident not in w.links:
+                w.links[ident] = Link(w, ident)
+            if sign > 0:
+                ll.append(w.links[ident])
+            elif w.links[ident] in ll:
+                ll.remove(w.links[ident])
         w.waits += 1
         if self.flag or w.waits > w.nticks:
             w.events.append("X%d:%d" % (dt, w.now))
@@ -135,13 +151,14 @@ def make(w, start, period, handler, links):
     clck_gen.threading = types.SimpleNamespace(
         Event=lambda: Breaker(w),
         Thread=lambda *a, **k: FakeThread(w, *a, **k))
-    objs = {}
+    objs = w.links
     ll = []
     for i in links:
         if i not in objs:
             objs[i] = Link(w, i)
         ll.append(objs[i])       # the same id twice = the same link object attached twice
     gen = clck_gen.CLCKGen(ll, clck_start=start, ind_period=period)
+    w.gen = gen
 
     def on_tick(fn):
         w.events.append("H%d:%d" % (fn, w.now))
@@ -175,6 +192,20 @@ def do_run(tok):
     t0, start, period, handler = int(tok[1]), int(tok[2]), int(tok[3]), int(tok[4])
     w = World(t0)
     gen = make(w, start, period, handler, csv(tok[5]))
+    out = session(w, gen, csv(tok[6]))
+    return out + " " + state(gen)
+
+
+def do_links(tok):
+    """clck.links T0 START PERIOD HANDLER LINKS DURS CHANGES ; CHANGES = `-` or k+id,k-id,... (in the wait before tick k)"""
+    t0, start, period, handler = int(tok[1]), int(tok[2]), int(tok[3]), int(tok[4])
+    w = World(t0)
+    gen = make(w, start, period, handler, csv(tok[5]))
+    if tok[7] != "-":
+        for ch in tok[7].split(","):
+            sign = +1 if "+" in ch else -1
+            k, ident = ch.split("+" if sign > 0 else "-")
+            w.changes.setdefault(int(k), []).append((sign, int(ident)))
     out = session(w, gen, csv(tok[6]))
     return out + " " + state(gen)
 
@@ -268,6 +299,8 @@ def main():
                 print(do_run(tok))
             elif tok and tok[0] == "clck.hist" and len(tok) == 7:
                 print(do_hist(tok))
+            elif tok and tok[0] == "clck.links" and len(tok) == 8:
+                print(do_links(tok))
             else:
                 print("bad-op")
         except Exception as e:
